@@ -1,6 +1,7 @@
 package an
 
 import (
+	"go/types"
 	"go/token"
 	"regexp"
 	"strings"
@@ -163,9 +164,8 @@ func runC13(p *Prog, r *Report) {
 	// flag says "the application was not told of the attach", loses the event on that path)
 	{
 		n := 0
-		for _, fname := range []string{"addPipe", "remPipe"} {
-			fn := p.Func("internal/core", "socket", fname)
-			if fn == nil {
+		for _, fn := range p.Funcs {
+			if rel, ok := p.FuncRel(fn); !ok || rel != "internal/core" || fn.Parent() != nil || strings.HasSuffix(p.Fset.Position(fn.Pos()).Filename, "_test.go") {
 				continue
 			}
 			for _, f := range WithClosures(fn) {
@@ -645,6 +645,92 @@ func hookIsSocketHook(v ssa.Value, seen map[ssa.Value]bool) (bool, string) {
 		return true, ""
 	case *ssa.Const:
 		return false, "it is the constant " + Desc(v) + " on some path"
+	case *ssa.Call:
+		// `ph := s.hook()`: a private getter: what it returns
+		sc := x.Call.StaticCallee()
+		if sc == nil || sc.Blocks == nil || x.Parent() == nil || sc.Pkg != x.Parent().Pkg {
+			return false, "it is the result of " + Desc(v)
+		}
+		ok, why := true, ""
+		n := 0
+		EachInstr(sc, func(in ssa.Instruction) {
+			if ret, isRet := in.(*ssa.Return); isRet && len(ret.Results) == 1 {
+				n++
+				if o, w := hookIsSocketHook(resolveSpill(ret.Results[0], ret), seen); !o {
+					ok, why = false, w
+				}
+			}
+		})
+		return ok && n > 0, why
+	case *ssa.Parameter:
+		// `go func(hook PipeEventHook, …) {…}(ph, …)`: the argument at the site that starts it
+		fn := x.Parent()
+		par := fn.Parent()
+		idx := -1
+		for i, q := range fn.Params {
+			if q == x {
+				idx = i
+			}
+		}
+		ok, why, n := true, "", 0
+		if par == nil {
+			// a private named function (`go pipeDetached(ph, p)`): every static call site in
+			// its package
+			if fn.Pkg == nil || !lowerName(fn.Name()) {
+				return false, "it is the parameter " + Desc(v) + " of an exported function"
+			}
+			for _, m := range fn.Pkg.Members {
+				collect := func(g *ssa.Function) {
+					for _, gg := range WithClosures(g) {
+						EachInstr(gg, func(in ssa.Instruction) {
+							c := CallOf(in)
+							if c == nil || c.StaticCallee() != fn || idx < 0 || idx >= len(c.Args) {
+								return
+							}
+							n++
+							if o, w := hookIsSocketHook(c.Args[idx], seen); !o {
+								ok, why = false, w
+							}
+						})
+					}
+				}
+				switch mm := m.(type) {
+				case *ssa.Function:
+					collect(mm)
+				case *ssa.Type:
+					for _, t := range []types.Type{mm.Type(), types.NewPointer(mm.Type())} {
+						ms := fn.Prog.MethodSets.MethodSet(t)
+						for i := 0; i < ms.Len(); i++ {
+							if g := fn.Prog.MethodValue(ms.At(i)); g != nil && g.Pkg == fn.Pkg {
+								collect(g)
+							}
+						}
+					}
+				}
+			}
+			return ok && n > 0, why
+		}
+		EachInstr(par, func(in ssa.Instruction) {
+			c := CallOf(in)
+			if c == nil || idx < 0 || idx >= len(c.Args) {
+				return
+			}
+			isThis := false
+			if mc, isMc := c.Value.(*ssa.MakeClosure); isMc && mc.Fn == fn {
+				isThis = true
+			}
+			if f2, isF := c.Value.(*ssa.Function); isF && f2 == fn {
+				isThis = true
+			}
+			if !isThis {
+				return
+			}
+			n++
+			if o, w := hookIsSocketHook(c.Args[idx], seen); !o {
+				ok, why = false, w
+			}
+		})
+		return ok && n > 0, why
 	}
 	return false, "it is " + Desc(v)
 }
